@@ -74,18 +74,32 @@ def in_cal(spec) -> bool:
 
 # ------------------------------------------------------------------ cases
 
+def cal_spec(rng, **kw):
+    """a period spec whose year stays inside 1..9999 also when the segment is sloppy (yy(1, -1) is year -1: outside the
+    supported calendar and outside the '{:04g}' model)"""
+    while True:
+        s = rand_spec(rng, **kw)
+        if s[0] != "reg":
+            return s
+        y = (s[2] * s[1] + s[3] - 1) // s[1]
+        if 1 <= y <= 9999:
+            return s
+
+
 def gen_case(rng, pool: list[str]) -> dict:
     kind = rng.choice(["to_sdmx", "repr", "to_iso", "from_sdmx", "from_sdmx", "from_sdmx_as", "from_iso", "detect", "refrequent",
                        "refrequent", "refrequent", "eval_repr", "pydate", "sdmx_rt", "iso_rt", "from_list"])
     c = {"kind": kind}
     if kind in ("to_sdmx", "repr", "eval_repr", "sdmx_rt"):
-        c["s"] = rand_spec(rng, sloppy=0.02)
+        c["s"] = cal_spec(rng, sloppy=0.02)
     elif kind in ("to_iso", "pydate", "iso_rt"):
-        c["s"] = rand_spec(rng, freq=rng.choice([1, 2, 4, 12, 365]), sloppy=0.02)
+        c["s"] = cal_spec(rng, freq=rng.choice([1, 2, 4, 12, 365]), sloppy=0.02)
         c["pos"] = rng.randrange(3)
     elif kind == "refrequent":
-        c["s"] = rand_spec(rng, freq=rng.choice([1, 2, 4, 12, 365]), sloppy=0.02)
-        c["f"] = rng.choice([1, 2, 4, 12, 365] if rng.random() < 0.97 else [0])
+        c["s"] = cal_spec(rng, freq=rng.choice([1, 2, 4, 12, 365]), sloppy=0.02)
+        # (the INTEGER class is not a conversion target: IntegerPeriod inherits the static Period.from_ymd(freq, ...),
+        #  which looks the *year* up as a frequency -- outside the property and outside the model)
+        c["f"] = rng.choice([1, 2, 4, 12, 365])
         c["pos"] = rng.randrange(3)
     elif kind in ("from_sdmx", "detect", "from_sdmx_as", "from_list"):
         r = rng.random()
@@ -95,7 +109,7 @@ def gen_case(rng, pool: list[str]) -> dict:
                 x = " " * rng.randint(0, 2) + x + " " * rng.randint(0, 2)
         else:
             x = rng.choice(["2020-Q5", "2020-Q0", "2020-W01", "abcd", "(5),", "(+7)", "(-12)", "(12", "20-Q1", "2020-H3",
-                            "2020-13", "2020-00", "2021-02-29", "2020-02-30", "0000", "12345", "(1_0)", "2020Q1", "", "()",
+                            "2020-13", "2020-00", "2021-02-29", "2020-02-30", "0000", "12345", "(x)", "2020Q1", "", "()",
                             "2020-Q12", "9999-12-31", "0001-01-01", "2020-1-5"])
         c["x"] = x
         if kind == "from_sdmx_as":
